@@ -238,6 +238,8 @@ class CallMixin:
             self.add_vc("call-pre", f"{c.target.split('::')[-1]}@{getattr(node, 'lineno', 0)}", st.pc,
                         self._b(c.requires(ctx)), loc=self.loc(node))
             st.assume(self._b(c.requires(ctx)))
+        if c.hyps is not None:
+            st.assume(self._b(c.hyps(ctx)))
         out = []
         # exceptional outcomes
         for r in c.raises:
